@@ -85,9 +85,44 @@ PROPS["C16"] = {
 PROPS["C05"]["exhaustive"] = {"quick": True, "thorough": True}
 PROPS["C05"]["explanation"] = "exhaustive = all top-level layouts up to the stated length over the 9-letter box alphabet"
 
+LOSSLESS_RULE = ("cases = (i) header-phase streams synthesised from the RFC 9649 grammar by an independent bit writer (harness/src/synth.rs): every subset and order of the four transforms, "
+                 "colour cache bits 0..15, meta prefix image, simple codes (one symbol, two symbols, the same symbol twice, 1-bit and 8-bit forms) and normal codes (with/without max_symbol, repeat codes 16/17/18), "
+                 "literals / back-references / cache indices, image sizes 1x1..40x40 and 16384-wide/tall strips; each with one planted rule violation in turn "
+                 "(duplicate transform, cache bits 0 / >11, max_symbol > alphabet, repeat overrun, incomplete / over-subscribed code, incomplete code-length code, distance symbol outside the alphabet, "
+                 "back-reference before the start / past the end, predictor > 13) or a valid corner case (same symbol twice, single symbol of length 2, all four transforms); "
+                 "(ii) libwebp 1.3.1 encoder output (methods 0-6, qualities, near-lossless, exact; noise/gradient/flat/2-4-16-200-colour palettes/photo-like/stripes; 1x1 .. 512x512 and 4096-wide strips) as VP8L and as lossless ALPH (filters 0-2); "
+                 "(iii) (ii) under bit flips, byte changes, splices, truncation (every byte for small images). Every payload is judged by webpsan (through a minimal container), by the Lean model and by libwebp's VP8LDecodeHeader / VP8LDecodeAlphaHeader. "
+                 "non-trivial = the payload got past the 5-byte VP8L header / ALPH header byte (any tag accepted, or rejected with ref verdict); distinct = distinct payloads")
+for _pid in ("C07", "C08"):
+    PROPS[_pid] = {
+        "extract": ["vp8l_tables"],
+        "rule": LOSSLESS_RULE,
+        "trivial_tags": [],
+        "shards": {"quick": 8, "thorough": 16},
+        "trusted_base": [
+            "hand-written model lean/MediaSan/Vp8l/{Bits,Huffman,Lossless}.lean of webpsan/src/parse/{lossless,bitstream,vp8l,alph}.rs over the ideal bit string (C19 relates the buffered reader), tied by differential execution",
+            "extract.py `vp8l_tables`: DISTANCE_MAP, CODE_ORDER, alphabet sizes and numeric bounds, plus anchors on each validity check",
+            "libwebp 1.3.1 as vendored in libwebp-sys 0.9.6 (offline registry) is the meaning of 'the reference decoder'; its C code is executed through harness/refdec/shim.c (VP8LDecodeHeader, VP8LDecodeAlphaHeader), not modelled",
+            "bitstream-io 1.x: LSB-first BitReader, compile_read_tree / read_huffman semantics as modelled in Vp8l/Huffman.lean",
+        ],
+        "assumptions": COMMON_ASSUME + ["the lossy `VP8 ` payload is never inspected by webpsan and therefore by nothing here"],
+    }
+PROPS["C08"]["assumptions"] = PROPS["C08"]["assumptions"] + [
+    "documented strictness is recognised by re-running the model with the predictor check off and single-symbol codes of any length accepted: a rejection that disappears under that setting is not a C08 violation"]
+
 NOT_APPLICABLE = {}
 
 MANIFEST_TEXT = {
+    "C07": {
+        "text": "Lean theorems about the model of the canonical-code builder and the lossless header-phase validator (see the Props file: each violation class named in the property is a rejection lemma of the model; the code tables equal the specification's). The whole-stream claim 'accepted => the reference decodes the header phase' is evaluated on the real code against libwebp 1.3.1 (executed, not modelled) over specification-synthesised streams with each rule violated in turn, encoder output and its mutations; the model must agree with webpsan on every payload.",
+        "note": "Partial by nature: relative to libwebp as an executed oracle. The check found defect F3 (simple prefix codes: stream-order assignment, a symbol named twice read as a 1-bit code, symbols outside the alphabet accepted), repaired in /repo. Trusted: see evidence.trusted_base.",
+        "technique": "Lean 4 proof of rejection lemmas and table obligations + three-way differential check (webpsan, Lean model, libwebp header-phase decoder)",
+    },
+    "C08": {
+        "text": "Converse of C07 on the same streams: whatever libwebp's header-phase decoder accepts must be accepted by webpsan, except for the two documented strictness choices, which the driver recognises by re-running the Lean model with exactly those two checks relaxed. Lean theorems: the specification's corner cases (single-leaf codes consume zero bits, a two-symbol simple code naming one symbol twice is that single-leaf code, every transform order is accepted by the transform loop) hold of the model; the container side is C06.",
+        "note": "Partial by nature (executed reference). The check found F3 (see C07) and F2 (sub-canvas lossless frames, see C06). Trusted: see evidence.trusted_base.",
+        "technique": "Lean 4 proof of acceptance corner cases + three-way differential check incl. libwebp encoder output",
+    },
     "C16": {
         "text": "Lean theorems: header decode∘encode = id on well-formed headers, encode∘decode reproduces the consumed bytes, put_buf writes exactly encoded_len bytes; the two constructors declare exactly header + payload, choose the 64-bit form iff the 32-bit one cannot hold it, never yield until-EOF, decode back, and fail iff the size leaves u64; Boxes::parse followed by serialization is the identity with encoded_len = length for every accepted byte string; the sanitizer's lazy typed-accessor path (moov → traks → mdia → minf → stbl → stco|co64) leaves serialization and length unchanged (a congruence-parametric preservation proof over the five nesting levels); every extracted mp4_int! row round-trips (big-endian). Correspondence through the public mp4san::parse API over header grids, constructor boundary grids and random trees x accessor-call sequences.",
         "note": "Trusted: Lean kernel and standard axioms; model of BytesMut/derive expansion validated differentially; harness + driver. Preconditions stated in evidence.assumptions (FourCC spelling `uuid`; failed accessors).",
